@@ -440,8 +440,13 @@ class _Observable(_STIXBase):
         STIX Cyber Observables (SCOs)
         """
 
-        if '*' in self._STIXBase__valid_refs:
-            return  # don't check if refs are valid
+        valid_refs = self._STIXBase__valid_refs
+        if isinstance(valid_refs, collections.abc.Mapping) and valid_refs.get('*') == '*' \
+                or not isinstance(valid_refs, collections.abc.Mapping) and '*' in valid_refs:
+            # don't check if refs are valid (the marker copies are made with;
+            # an observed-data object with a member keyed "*" is no such
+            # request: there "*" maps to the member's type)
+            return
 
         if ref not in self._STIXBase__valid_refs:
             raise InvalidObjRefError(self.__class__, prop_name, "'%s' is not a valid object in local scope" % ref)
